@@ -16,6 +16,7 @@ class Facts:
         self.impls = d["impls"]
         self.statics = {s["def"]: s for s in d["statics"]}
         self.aliases = {a["def"]: a for a in d["aliases"]}
+        self.ext_enums = {e["def"]: e for e in d.get("ext_enums", [])}
         for b in list(self.bodies.values()) + list(self.promoted.values()):
             for i, bb in enumerate(b["blocks"]):
                 bb["idx"] = i
